@@ -47,7 +47,7 @@ RULE = ("Hypothesis-generated dataset specs (features x sizes x writer history x
         "is non-trivial when the checked file went through >= 2 chained dclab write "
         "paths (closure/defect) or carries two applied corruptions (corrupt); "
         "distinct = sha1 of the canonical JSON spec")
-BUDGET = {"quick": 400, "thorough": 8000}
+BUDGET = {"quick": 480, "thorough": 8000}
 ESSENTIAL = [
     "mode:closure", "mode:defect", "mode:corrupt", "chain>=2", "paired",
     "op:compress", "op:repack", "op:condense", "op:export", "op:export_filtered",
@@ -129,7 +129,7 @@ def st_ds(draw, need_img=False, need_fl=False, need_trace=False, clean=False):
     img = None
     imgf = []
     if need_img or draw(st.integers(0, 9)) < 5:
-        img = [draw(st.integers(2, 8)), draw(st.integers(2, 10))]
+        img = [draw(st.integers(4, 9)), draw(st.integers(4, 12))]
         imgf = draw(st.lists(st.sampled_from(IMG_FEATS), min_size=1, max_size=3,
                              unique=True))
     fl = []
@@ -180,7 +180,7 @@ def st_cor(draw, kind):
 
 @st.composite
 def st_spec(draw):
-    mode = draw(st.sampled_from(["closure"] * 9 + ["defect"] * 3 + ["corrupt"] * 8))
+    mode = draw(st.sampled_from(["closure"] * 7 + ["defect"] * 3 + ["corrupt"] * 10))
     spec = {"mode": mode, "chunk": draw(st.sampled_from([None, 100])),
             "defects": [], "corrupt": [], "copies": True}
     if mode == "closure":
@@ -212,6 +212,110 @@ def st_spec(draw):
 
 def strategy(tier):
     return st_spec()
+
+
+# ---------------------------------------------------------------- enumerated part
+
+def _template(index=True, minimal=False, fl=(1, 2)):
+    if minimal:
+        return {"n": 3, "seed": 11, "scal": ["deform"], "special": False,
+                "img": None, "imgf": [], "contour": False, "fl": [], "flneg": False,
+                "trace": None, "index": index, "comp": [3], "reopen": [False],
+                "meta_late": False, "full": False, "auto": "given", "lasers": [],
+                "zeropower": False, "log": 0, "table": False, "route": "writer",
+                "replace": False}
+    return {"n": 12, "seed": 7, "scal": ["area_um", "deform", "temp"],
+            "special": False, "img": [6, 9], "imgf": ["image", "image_bg", "mask"],
+            "contour": True, "fl": list(fl), "flneg": False,
+            "trace": {"names": ["fl1_raw", "fl2_median"], "ns": 7},
+            "index": index, "comp": [5, 7], "reopen": [True, False],
+            "meta_late": False, "full": True, "auto": "given", "lasers": [1, 2],
+            "zeropower": True, "log": 0, "table": True, "route": "writer",
+            "replace": False}
+
+
+def _case(ds, mode="corrupt", ops=(), corrupt=(), defects=()):
+    return {"mode": mode, "chunk": None, "defects": list(defects),
+            "corrupt": list(corrupt), "copies": mode != "corrupt", "ds": ds,
+            "ops": [{"op": o, "a": a, "mask": [True, False, True]} for o, a in ops],
+            "seed2": 5, "cli_missing": False}
+
+
+def enumerate_cases(tier):
+    """deterministic sweep: every corruption kind x variant alone on a rich and
+    on a minimal valid file, every write path once, every omittable key once"""
+    full = _template()
+    noidx = _template(index=False)
+    mini = _template(minimal=True)
+
+    def cor(k, a=0, b=0, c=0):
+        return {"k": k, "a": a, "b": b, "c": c}
+    out = []
+    nfeat = 3 + 3 + 1 + 2 + 1 + 2      # scalars, images, contour, fl_max, index, traces
+    for a in range(nfeat):
+        for b in (1, 3, 5):
+            out.append(_case(full, corrupt=[cor("len_feat", a, b, a + b)]))
+    for b in (1, 3, 5):
+        out.append(_case(mini, corrupt=[cor("len_feat", 0, b, 1)]))
+    for a in range(6):
+        out.append(_case(noidx, corrupt=[cor("evcount", a)]))
+        out.append(_case(mini if a % 2 else full, corrupt=[cor("evcount", a)]))
+    for a in range(2):
+        for b in range(4):
+            out.append(_case(full, corrupt=[cor("roi", a, b)]))
+    for a in range(len(UNKNOWN_NAMES)):
+        out.append(_case(full if a % 2 else mini, corrupt=[cor("unknown", a, a % 3)]))
+    for a in range(27):
+        out.append(_case(full, corrupt=[cor("del_meta", a, 1)]))
+    for a in range(17):
+        out.append(_case(mini, corrupt=[cor("del_meta", a, 1)]))
+    for a in range(4):
+        out.append(_case(full, corrupt=[cor("del_meta", a, 0)]))
+    for a in range(5):
+        for t in (full, noidx, mini):
+            out.append(_case(t, corrupt=[cor("bad_index", a, a + 1)]))
+    for a in range(3):
+        for b in range(4):
+            out.append(_case(full, corrupt=[cor("fl_chan", a, b)]))
+    for a in range(4):
+        for b in range(4):
+            out.append(_case(full, corrupt=[cor("fl_laser", a, b)]))
+    for a in range(4):
+        out.append(_case(full, corrupt=[cor("fl_spe", a)]))
+        out.append(_case(_template(fl=(3,)), corrupt=[cor("fl_spe", a)]))
+    for a in range(8):
+        for b in (range(5) if a <= 2 else (0,)):
+            out.append(_case(full if (a + b) % 2 else mini,
+                             corrupt=[cor("ext", a, b, a + b)]))
+    for a in range(4):
+        for b in range(len(NONPOS_VALS)):
+            out.append(_case(mini if b % 2 else full, corrupt=[cor("nonpos", a, b, b)]))
+    # single-channel files (each channel alone) with the fl corruptions
+    for ch in (1, 2, 3):
+        t = _template(fl=(ch,))
+        out.append(_case(t, corrupt=[cor("fl_chan", 1, 0)]))
+        out.append(_case(t, corrupt=[cor("fl_laser", 3, 0)]))
+        out.append(_case(t, corrupt=[cor("del_meta", 17 + ch, 1)]))
+    # every write path once (and twice chained) on the rich file
+    for i, o in enumerate(OPS_ALL):
+        out.append(_case(full, mode="closure", ops=[(o, i)]))
+        out.append(_case(noidx, mode="closure",
+                         ops=[(o, i + 1), (OPS_ALL[(i + 3) % len(OPS_ALL)], i)]))
+    for auto in ("omit", "wrong"):
+        t = dict(full, auto=auto, meta_late=(auto == "wrong"))
+        out.append(_case(t, mode="closure", ops=[("compress", 0)]))
+        out.append(_case(dict(t, route="dict", contour=False, trace=None),
+                         mode="closure", ops=[("repack", 0)]))
+    # dclab-produced files with one missing mandatory key / non-positive value
+    for a in range(22):
+        out.append(_case(full if a % 2 else noidx, mode="defect",
+                         defects=[{"k": "omit", "a": a, "b": 0}]))
+    for a in range(4):
+        for b in range(len(NONPOS_VALS)):
+            out.append(_case(mini, mode="defect",
+                             defects=[{"k": "nonpos", "a": a, "b": b}]))
+    out.append(_case(full, mode="defect", defects=[{"k": "zmd", "a": 0, "b": 0}]))
+    return out
 
 
 def sample_view(spec):
@@ -256,7 +360,15 @@ def _features(ds, seed):
         h, w = ds["img"]
         for f in ds["imgf"]:
             if f == "mask":
-                out[f] = r.integers(0, 2, size=(n, h, w)).astype(bool)
+                # one filled rectangle (>= 2x2) per event, away from the border
+                mk = np.zeros((n, h, w), dtype=bool)
+                for i in range(n):
+                    y0 = int(r.integers(1, h - 2))
+                    x0 = int(r.integers(1, w - 2))
+                    y1 = int(r.integers(y0 + 2, h))
+                    x1 = int(r.integers(x0 + 2, w))
+                    mk[i, y0:y1, x0:x1] = True
+                out[f] = mk
             else:
                 # never all-zero first / last frame (dclab-split drops those on purpose)
                 out[f] = r.integers(1, 256, size=(n, h, w)).astype(np.uint8)
@@ -567,6 +679,11 @@ def _closure(rec, path, tag):
         return None
     rec.check(res[0] == [], f"closure/violations/{tag}",
               lambda: f"file produced by {tag} is reported with violations {res[0]}")
+    # auxiliary (alert level): RTDCWriter.write_image_grayscale documents that it
+    # adds the HDF5 image attributes the checker looks for
+    bad = [a for a in res[1] if a.startswith("HDF5: '/") and "attribute" in a]
+    rec.check(not bad, f"closure/image-attribute-alerts/{tag.split('/')[0]}",
+              lambda: f"file produced by {tag}: {bad}")
     return res
 
 
@@ -581,6 +698,27 @@ def _h5_features(h5):
         else:
             out.append(nm)
     return out
+
+
+def _set_len(h5, name, new):
+    """change the number of events of a dataset (re-created when its maximal
+    shape is fixed, as in files written by the copy tools)"""
+    dset = h5[name]
+    if dset.maxshape[0] is None:
+        dset.resize(new, axis=0)
+        return
+    data = dset[:]
+    attrs = dict(dset.attrs)
+    if new <= len(data):
+        data = data[:new]
+    else:
+        pad = np.repeat(data[-1:], new - len(data), axis=0)
+        data = np.concatenate([data, pad])
+    del h5[name]
+    nd = h5.create_dataset(name, data=data, maxshape=(None,) + data.shape[1:],
+                           chunks=(max(1, min(10, len(data))),) + data.shape[1:])
+    for k, v in attrs.items():
+        nd.attrs[k] = v
 
 
 def _apply_corruption(h5, c, d, touched, info):
@@ -624,14 +762,14 @@ def _apply_corruption(h5, c, d, touched, info):
                     grp.create_dataset(str(i), data=np.ones((4, 2), dtype=np.int64))
                 how = "longer"
             return {"cls": f"len_feat/contour/{how}", "kf": "contour",
-                    "need": [("feature size", ["'contour'"])]}
-        if choice == 0:
+                    "need": [("feature size", ["wrong event count: 'contour'"])]}
+        if choice == 3:
             new, how = 0, "empty"
         elif choice < 5 and n > 1:
             new, how = 1 + cc % (n - 1), "shorter"
         else:
             new, how = n + 1 + cc % 5, "longer"
-        ev[f].resize(new, axis=0)
+        _set_len(h5, f"events/{f}", new)
         fkind = ("trace" if f.startswith("trace/") else
                  "index" if f == "index" else
                  f if f in IMG_FEATS else
@@ -644,7 +782,7 @@ def _apply_corruption(h5, c, d, touched, info):
         elif how == "empty" and fkind == "flmax":
             kf = "empty-flmax"
         return {"cls": f"len_feat/{fkind}/{how}", "kf": kf,
-                "need": [("feature size", [f"'{f}'"])]}
+                "need": [("feature size", [f"wrong event count: '{f}'"])]}
 
     if kind == "evcount":
         if "len" in touched or "attr:experiment:event count" not in \
@@ -662,7 +800,9 @@ def _apply_corruption(h5, c, d, touched, info):
         for f in _h5_features(h5):
             if f in ("contour", "index") or f.startswith("basinmap"):
                 continue
-            need.append(("feature size", [f"'{f}'"]))
+            if f"ds:{f}" in touched or f"ds:events/{f}" in touched:
+                continue      # object added by another corruption
+            need.append(("feature size", [f"wrong event count: '{f}'"]))
         kf = "index-length" if "index" in ev else None
         if not need:
             return {"cls": "evcount/only-contour-or-index", "kf": kf, "need": [],
@@ -951,7 +1091,8 @@ def _judge(rec, path, exps, dclab_made):
         for t in tags:
             if KF_SITE.get(t) == where:
                 cls = t
-        rec.fail(f"raises/{type(exc).__name__}/{where}/{cls}",
+        site = "" if cls == "dangling-link" else f"{where}/"
+        rec.fail(f"raises/{type(exc).__name__}/{site}{cls}",
                  f"check_dataset raised {exc!r} (in {_where(exc)}) instead of "
                  f"reporting; applied: {[e['cls'] for e in exps]}")
         rec.check(code == 4, "cli/exit-code/checker-raised",
@@ -1065,7 +1206,9 @@ def _run(spec, rec, d):
             continue
         try:
             cur, outs, note = _apply_op(op, cur, d, k, spec, rec)
-        except Exception as e:  # noqa
+        except BaseException as e:  # noqa (dclab has BaseException subclasses)
+            if isinstance(e, (KeyboardInterrupt, SystemExit, MemoryError)):
+                raise
             # a write path that fails produces no file to be judged by the
             # checker; such failures belong to C02/C07/C08/C09/C14 (e.g. ragged
             # basin features through dclab-condense) and are only counted here
@@ -1123,6 +1266,18 @@ def _run(spec, rec, d):
                 rec.check(r2[0] == res[0], f"copy/violations-differ/{tool}/{tag}",
                           lambda: f"violations of the file {res[0]} != violations "
                                   f"of its {tool} copy {r2[0]}")
+        if res is not None:
+            with h5py.File(cur, "r") as h5:
+                has_basins = "basins" in h5 and len(h5["basins"]) > 0
+            if has_basins:
+                rec.skip("instance-vs-path:file-with-basins")
+            else:
+                # documented alternative argument: an RTDCBase instance
+                with dclab.new_dataset(cur) as dsi:
+                    ri = check_dataset(dsi)
+                rec.check(ri[0] == res[0], "api/instance-vs-path/violations",
+                          lambda: f"check_dataset(ds) {ri[0]} != check_dataset(path) "
+                                  f"{res[0]}")
         if spec.get("cli_missing"):
             code = _cli_exit(d / "no-such-file.rtdc")
             rec.check(code == 4, "cli/exit-code/missing-file", f"exit code {code}")
